@@ -257,7 +257,13 @@ pub fn run_c30(ctx: &Ctx) -> i32 {
         let top = 1u64 << w;
         for x in 0..(top + 4) {
             let interesting = x == 0 || x == c as u64 || x == c as u64 + 1 || x + 1 == top || x == top || (thorough && (x + c as u64) % 5 == 0);
-            judge_lt(&rep, &lc, x, interesting && (thorough || (c + w) % 4 == 0), thorough);
+            let mut hints = interesting && (thorough || (c + w) % 4 == 0);
+            if hints && ctx.over_budget() {
+                // the value judgement stays exhaustive; only the hint sweeps are bounded by the time budget
+                rep.count("hint_sweeps_skipped_by_time_budget");
+                hints = false;
+            }
+            judge_lt(&rep, &lc, x, hints, thorough);
         }
         for x in [P - 1, M32 + 1, 1u64 << 63] {
             judge_lt(&rep, &lc, x, false, thorough);
@@ -289,7 +295,12 @@ pub fn run_c30(ctx: &Ctx) -> i32 {
         let mut rng = ctx.sub_rng("big", i as u64);
         for x in lt_values(w, c as u64, &mut rng) {
             let interesting = x == 0 || x == c as u64 || x == c as u64 + 1 || x == P - 1 || x == M32 + 1;
-            judge_lt(&rep, &lc, x, thorough || (interesting && (i + x as usize) % 2 == 0), thorough);
+            let mut hints = thorough || (interesting && (i + x as usize) % 2 == 0);
+            if hints && ctx.over_budget() {
+                rep.count("hint_sweeps_skipped_by_time_budget");
+                hints = false;
+            }
+            judge_lt(&rep, &lc, x, hints, thorough);
         }
     });
     rep.sample(json!({"width": 64, "constant": 0, "value": 0, "expected_output": 0, "attack": "LowHighGenerator outputs pinned to the halves of 0+p"}));
